@@ -1,13 +1,13 @@
 """C06 - implicit integrators solve the linearised theta / BDF2 system exactly.
 
 Oracle: the operator matrix A of the linear convection discretisation is assembled by the harness from unit vectors, then
-(I - theta dt A)^-1 (I + (1-theta) dt A) Q  (numpy.linalg.solve), the BDF2 recurrence, expm(tA)Q (scipy) for the temporal order and a
+(I - theta dt A)^-1 (I + (1-theta) dt A) Q  (Householder QR), the BDF2 recurrence, expm(tA)Q (scipy) for the temporal order and a
 central-difference derivative of rhs (independent step) for the Jacobian.
 """
 import numpy as np
 from hypothesis import strategies as st
 
-from vf import cases, gen, sim
+from vf import cases, gen, oracles, sim
 from vf.runner import Skip, SubCheck, require, target
 
 RULE = ("theta/gear: linear convection(+/-a) x mesh (uniform/refined/morphed/arbitrary faces, 2..20 (thorough 60) cells) x linear reconstruction (extrapol1/2/3, centered, fromm, quick, "
@@ -72,7 +72,7 @@ def strat_theta_large(tier):
     mesh = st.builds(lambda n, kind, L: (dict(kind="uni", n=n, length=L, x0=0.0) if kind == 0 else dict(kind="morph", n=n, length=L, x0=0.0, law="sine", param=0.5)),
                      st.sampled_from([700, 2100]), st.integers(0, 1), gen.logf(-1, 1))
     return st.builds(lambda md, me, num, fld, integ, cfl, ns: dict(model=md, mesh=me, num=num, field=fld, integ=integ, cfl=cfl, nsteps=ns, local=False),
-                     gen.model_convection(), mesh, _linear_nums(), gen.prof_fourier(gen.f(-1, 1), gen.f(0.1, 1)), st.sampled_from(im), gen.logf(-1, 2), st.integers(1, 2))
+                     gen.model_convection(), mesh, _linear_nums(), gen.prof_fourier(gen.f(-1, 1), gen.f(0.1, 1)), st.sampled_from(im), st.one_of(gen.logf(-1, 2), gen.f(4, 40)), st.integers(1, 2))
 
 
 def check_theta(case):
@@ -99,27 +99,31 @@ def check_theta(case):
         qn = qs[-1]
         if name in THETA:
             th = THETA[name]
-            ref = np.linalg.solve(I - th * D @ A, (I + (1 - th) * D @ A) @ qn)
+            ref = oracles.dense_solve(I - th * D @ A, (I + (1 - th) * D @ A) @ qn)
         elif name == "gear":
             if k == 0:
-                ref = np.linalg.solve(I - 0.5 * D @ A, (I + 0.5 * D @ A) @ qn)
+                ref = oracles.dense_solve(I - 0.5 * D @ A, (I + 0.5 * D @ A) @ qn)
             else:
-                ref = np.linalg.solve(1.5 * I - D @ A, 2.0 * qn - 0.5 * qs[-2])
+                ref = oracles.dense_solve(1.5 * I - D @ A, 2.0 * qn - 0.5 * qs[-2])
         else:
             require(False, "unknown-implicit-integrator", "no reference scheme known for the exported implicit integrator %r: extend vf/props/c06.py" % name)
-        err = float(np.max(np.abs(got - ref))) / scale
-        # the finite-difference Jacobian of the linear operator is exact to ~1e-10 relative; the step multiplies that error by dt_i*|a|/dx_j, i.e. by the
-        # CFL number times the largest ratio of cell sizes when the time step is per cell
-        tol = 1e-6 + 1e-8 * cflk * (float(np.max(dx) / np.min(dx)) if local else 1.0)
+        # measured against the size of the data of THIS step (per-cell time steps with a centred scheme can grow by orders of magnitude per step)
+        stepscale = max(scale, float(np.max(np.abs(qn))), float(np.max(np.abs(ref))))
+        err = float(np.max(np.abs(got - ref))) / stepscale
+        # the finite-difference Jacobian of the linear operator is exact to ~1e-9 relative; the step multiplies that error by dt_i*|a|/dx_j, i.e. by the
+        # CFL number times the largest ratio of cell sizes when the time step is per cell, and the linear solve by the condition number of the system
+        th_ = THETA.get(name, 0.5 if k == 0 else 2.0 / 3.0)
+        cond = float(np.linalg.cond(I - th_ * D @ A)) if n <= 100 else 1.0
+        tol = 1e-6 + 1e-8 * cflk * (float(np.max(dx) / np.min(dx)) if local else 1.0) + 1e-8 * cond
         require(err <= tol, "linearised-system", "%s step %d (cfl=%g, %s dt, %s, %s mesh, n=%d): result differs from the dense solution of the %s system by %.3g (relative)"
                 % (name, k + 1, cflk, "per-cell" if local else "scalar", case["num"]["name"], case["mesh"]["kind"], n,
                    "theta" if name in THETA else ("Crank-Nicolson" if k == 0 else "BDF2"), err))
-        worst = max(worst, err)
+        worst = max(worst, err / tol)
         # continue the reference trajectory from the reference itself (errors must not accumulate silently)
         qs.append(ref)
         tref += float(np.min(dtcell))
         require(abs(f.time - tref) <= 1e-12 * tref, "step-time", "%s: time after %d steps is %r, expected %r" % (name, k + 1, f.time, tref))
-    target(worst, "theta-step-error")
+    target(worst, "theta-step-error/tol")
     rho = float(np.max(np.abs(np.linalg.eigvals(A)))) if n <= 40 else float(np.linalg.norm(A, 1))
     nt = bool(np.max(q0) > np.min(q0) and float(np.min(dtcell)) * rho > 1e-3)
     varying = len(set(dtfac[:case["nsteps"]])) > 1
@@ -292,6 +296,6 @@ META = dict(
     level_text="Generated search over fields, meshes (non-uniform included), linear reconstructions and CFL numbers from 0.01 to 100: every step of implicit / Crank-Nicolson / gear is "
                "compared with a dense numpy solution of the theta / BDF2 system built from the harness' own operator matrix; no growth for Re z <= 0, temporal orders against expm, and "
                "the Jacobian of nonlinear models against a central-difference derivative. Exploration only.",
-    level_note="trusted: numpy.linalg.solve/eigvals, scipy.linalg.expm; tolerances 1e-6 (steps), 1e-4 (Jacobian), [0.7,1.4] x 2^p (order)",
+    level_note="trusted: numpy.linalg.qr/eigvals, scipy.linalg.solve_triangular/expm; tolerances 1e-6 (steps), 1e-4 (Jacobian), [0.7,1.4] x 2^p (order)",
     technique="property-based testing (Hypothesis given): differential against a dense reference implementation of the theta/BDF2 schemes",
 )
